@@ -184,7 +184,12 @@ def _atom(atoms, key):
     return atoms[key]
 
 
+THOROUGH = False
+
+
 def check(db, rep):
+    global THOROUGH
+    THOROUGH = rep.tier == 'thorough'
     rep.explanation = ('Evaluator operator tables extracted by partial evaluation of the visitor methods on abstract operands and compared with set theory / propositional logic; '
                        'binder bookkeeping, fresh-name discipline, lazy enumeration order and syntax-independence as structural rules. Values of whole programs are not decided.')
     H = Harness(db)
@@ -252,7 +257,7 @@ def check(db, rep):
         def qcase(op=op, fold=fold):
             bad = []
             n = 0
-            for size in (0, 1, 2, 3):
+            for size in ((0, 1, 2, 3, 4, 5) if THOROUGH else (0, 1, 2, 3)):
                 dom = [Sym('e%d' % i) for i in range(size)]
                 for vals in itertools.product((F, T), repeat=size):
                     n += 1
@@ -273,7 +278,7 @@ def check(db, rep):
     def declcase():
         bad = []
         n = 0
-        for size in (0, 1, 2, 3):
+        for size in ((0, 1, 2, 3, 4, 5) if THOROUGH else (0, 1, 2, 3)):
             dom = [Sym('e%d' % i) for i in range(size)]
             for vals in itertools.product((F, T), repeat=size):
                 n += 1
